@@ -30,3 +30,15 @@ Definition as_chunk (x : sx) : option bytes :=
   | L [A seed; A len] => if (Z.ltb seed 0 || Z.ltb len 0)%bool then None else Some (gen_bytes (Z.to_nat len) (Z.to_N seed))
   | _ => None
   end.
+
+(* the digest of a concatenation, computed chunk by chunk (no large intermediate list): equal to
+   digest (concat chunks) -- Proofs/C04_payload.v *)
+Fixpoint fletcher_chunks (s1 s2 : N) (chunks : list bytes) : N * N :=
+  match chunks with
+  | [] => (s1, s2)
+  | c :: r => let '(x, y) := fletcher s1 s2 c in fletcher_chunks x y r
+  end.
+
+Definition digest_chunks (chunks : list bytes) : sx :=
+  let '(s1, s2) := fletcher_chunks 0 0 chunks in
+  L [A (Z.of_nat (fold_left (fun n c => (n + length c)%nat) chunks 0%nat)); A (Z.of_N s1); A (Z.of_N s2)].
